@@ -15,12 +15,12 @@ def msg_lengths(cap, tier, dense_upto=0):
     return sorted(x for x in s if 0 <= x <= cap + 1)
 
 
-def new_message(sx, n, long_trick, concrete=False):
+def new_message(sx, n, long_trick, concrete=False, name="msg", lo=0x80, hi=0xFF):
     if concrete:
-        return sx.mkbytes([(0x80 | (i * 11 + i // 251)) & 0xFF for i in range(n)], True)
+        return sx.mkbytes([(lo | (i * 11 + i // 251)) & hi for i in range(n)], True)
     if long_trick:
-        return sx.mkbytes([sx.int("msg[%d]" % i, 0x80, 0xFF) for i in range(n)], True)
-    return sx.bytes("msg", n, mutable=True)
+        return sx.mkbytes([sx.int("%s[%d]" % (name, i), lo, hi) for i in range(n)], True)
+    return sx.bytes(name, n, mutable=True)
 
 
 def open_ndef(sx, world, who):
@@ -48,8 +48,10 @@ def roundtrip(sx, world, n, prop="C01"):
         sx.check(cap <= world.cap, "capacity-exceeds-layout:" + kind)
         sx.check(sx.eq(ndef.octets, world.old), "initial-read-differs:" + kind)
     cap = sx.concrete(cap)
+    again = getattr(world, 'again', None)
     msg = new_message(sx, n, getattr(world, 'long_trick', False),
-                      getattr(world, 'concrete_msg', False))
+                      getattr(world, 'concrete_msg', False),
+                      hi=0xBF if again is not None else 0xFF)
     before = world.snapshot()
     ncmd = world.sim.ncmd
     for l in world.geometry(n):
@@ -82,6 +84,20 @@ def roundtrip(sx, world, n, prop="C01"):
     if not c01:
         check_area(sx, world, before, "write")
         return "written"
+    if again is not None:
+        # a second write through the same NDEF object (what it cached about
+        # the tag must still be right after its own first write); the second
+        # message takes its octets from C0h..FFh, the first from 80h..BFh
+        n2 = sx.pick("n2", [x for x in again if x <= cap])
+        msg2 = new_message(sx, n2, getattr(world, 'long_trick', False),
+                           getattr(world, 'concrete_msg', False), name="msg2", lo=0xC0)
+        sx.check(ndef.capacity == cap, "capacity-changed-by-write-on-same-object:" + kind)
+        sx.check(ndef.length == n, "length-on-same-object-differs-after-write:" + kind)
+        ndef.octets = msg2
+        sx.reach("second_write_on_same_object")
+        if lenbytes(n) != lenbytes(n2):
+            sx.reach("second_write_changes_length_format")
+        n, msg = n2, msg2
     tag2, ndef2 = open_ndef(sx, world, "second")
     if ndef2 is None:
         sx.check(False, "ndef-gone-after-write:" + kind)
